@@ -462,6 +462,12 @@ func c11Scenario(s c11Session) explore.Scenario {
 					in.Write(p[:s.cut])
 				}
 			}
+			switch s.cut {
+			case -2: // a complete frame: CLOSE #998 announcing a 10-byte handle and carrying none of it
+				in.Write([]byte{0, 0, 0, 9, sshFxpClose, 0, 0, 3, 0xe6, 0, 0, 0, 10})
+			case -3: // a complete frame of a packet type the protocol does not define
+				in.Write([]byte{0, 0, 0, 5, 200, 0, 0, 3, 0xe7})
+			}
 			if s.srvClose && rsrv != nil {
 				rsrv.Close() // a graceful stop by the application while handles may still be open
 			}
@@ -587,7 +593,7 @@ func init() {
 		alpha := c11Alphabet(c.ArgInt("handles", 2), c.Arg("full", "0") == "1")
 		cuts := []int{-1}
 		if c.Arg("cuts", "0") == "1" {
-			cuts = []int{-1, 1, 4, 5, 9, 13, 20}
+			cuts = []int{-1, 1, 4, 5, 9, 13, 20, -2, -3} // -2 / -3: the session ends on a whole frame that does not decode (CLOSE with a short body / an undefined packet type)
 		}
 		var i int64
 		sub := *c
